@@ -18,6 +18,36 @@ theorem utext_cols (cs : List Nat) : (utext cs).cols = cs.length := by
 
 theorem mkLine_cols (k : LineKind) (cs : List Nat) : (mkLine k cs).cols = cs.length := utext_cols cs
 
+/-- single-width glyphs never wrap early: no padding -/
+theorem utext_padStep (W : Nat) : ∀ (cs : List Nat) (acc : Nat × Nat), ((utext cs).foldl (Text.padStep W) acc).2 = acc.2 := by
+  intro cs
+  induction cs with
+  | nil => intro acc; rfl
+  | cons c cs ih =>
+    intro acc
+    simp only [utext, List.map_cons, List.foldl_cons]
+    have hstep : (Text.padStep W acc { cp := c, w := 1 }).2 = acc.2 := by
+      unfold Text.padStep
+      simp only []
+      split
+      · rfl
+      · split
+        · rename_i h1 h2
+          exfalso
+          have hW : ¬ (1 > W) := fun h => h1 (Or.inr h)
+          have : acc.1 % W < W := Nat.mod_lt _ (by omega)
+          omega
+        · rfl
+    have := ih (Text.padStep W acc { cp := c, w := 1 })
+    simp only [utext] at this
+    rw [this, hstep]
+
+theorem mkLine_padded (W : Nat) (k : LineKind) (cs : List Nat) : (mkLine k cs).padded W = cs.length := by
+  unfold Line.padded Text.padded
+  show (utext cs).cols + ((utext cs).foldl (Text.padStep W) (0, 0)).2 = cs.length
+  rw [utext_padStep, utext_cols]
+  rfl
+
 theorem wrap_last_pos (W : Nat) (hW : 0 < W) : ∀ (n : Nat) (cs : List Nat), cs.length = n → cs ≠ [] →
     0 < ((wrap W cs).getLast?.getD []).length := by
   intro n
@@ -40,7 +70,7 @@ theorem wrappedHeight_eq (W : Nat) (hW : 0 < W) (k : LineKind) (cs : List Nat) :
     wrappedHeight W (mkLine k cs) = (wrap W cs).length := by
   obtain ⟨k', h1, h2, h3⟩ := wrap_arith W hW cs.length cs rfl
   unfold wrappedHeight
-  rw [mkLine_cols, h1]
+  rw [mkLine_padded, h1]
   by_cases h0 : cs.length = 0
   · have hk : k' = 0 := by
       cases k' with
@@ -138,7 +168,7 @@ theorem paintLoop_fit (fx : Fixes) (W H total : Nat) (nc up : Bool) (hW : 0 < W)
       rcases hpark with h | h
       · rw [h]; simp
       · simp [h]
-    simp only [List.map_cons, paintLoop, Item.line, wrappedHeight_eq W hW, mkLine_cols]
+    simp only [List.map_cons, paintLoop, Item.line, wrappedHeight_eq W hW, mkLine_cols, mkLine_padded]
     simp only [hblank, hpre, Bool.false_eq_true, if_false, List.append_nil]
     simp only [barRows] at hfit
     by_cases hb : k = .bar
